@@ -115,6 +115,7 @@ pub fn run_script(who: Who, script: &[InOp], sh: &Rc<Shared>, tables: &TablesWea
                     sh.log(Event::VarDropped { who, var: *var });
                 }
             }
+            InOp::GuardSibling => {}
             InOp::ReadOwn | InOp::UnsubscribeSelf | InOp::UnsubscribeOther | InOp::DisallowOwn | InOp::SubscribeOwn | InOp::DropOwn => {
                 let Who::Handler(sub) = who else { continue };
                 let info = {
@@ -177,17 +178,37 @@ pub fn run_script(who: Who, script: &[InOp], sh: &Rc<Shared>, tables: &TablesWea
     }
 }
 
+/// what a handler closure may own: cancels a sibling subscription when the closure is dropped
+pub struct SiblingGuard {
+    pub state: incremental::WeakState,
+    pub token: SubscriptionToken,
+    pub sh: Rc<Shared>,
+    pub target: usize,
+    pub owner: usize,
+}
+impl Drop for SiblingGuard {
+    fn drop(&mut self) {
+        self.state.unsubscribe(self.token);
+        // inside a stabilise the monitors learn the moment from the log; between stabilises the
+        // model follows the cascade itself
+        if self.sh.stabilising.get() && !self.sh.tearing_down.get() {
+            self.sh.log(Event::Unsub { sub: self.target, by: self.owner, result: Ok(()) });
+        }
+    }
+}
+
 fn make_handler<T: ToVal>(
     sh: &Rc<Shared>,
     tables: &TablesWeak,
     sub: usize,
     script: Vec<InOp>,
+    guard: Option<SiblingGuard>,
 ) -> impl FnMut(Update<&T>) + 'static {
     let sh = sh.clone();
     let tables = tables.clone();
     let tok = sh.token();
     move |u: Update<&T>| {
-        let _ = &tok;
+        let _ = (&tok, &guard);
         sh.tick("handler");
         let update = match u {
             Update::Initialised(v) => Upd::Init(v.to_val()),
@@ -209,9 +230,20 @@ pub fn subscribe(
     sub: usize,
     script: Vec<InOp>,
 ) -> Result<SubscriptionToken, ObsErr> {
+    subscribe_guarded(h, sh, tables, sub, script, None)
+}
+
+pub fn subscribe_guarded(
+    h: &ObsH,
+    sh: &Rc<Shared>,
+    tables: &TablesWeak,
+    sub: usize,
+    script: Vec<InOp>,
+    guard: Option<SiblingGuard>,
+) -> Result<SubscriptionToken, ObsErr> {
     match h {
-        ObsH::I(o) => o.try_subscribe(make_handler::<i64>(sh, tables, sub, script)).map_err(ObsErr::from),
-        ObsH::P(o) => o.try_subscribe(make_handler::<(i64, i64)>(sh, tables, sub, script)).map_err(ObsErr::from),
+        ObsH::I(o) => o.try_subscribe(make_handler::<i64>(sh, tables, sub, script, guard)).map_err(ObsErr::from),
+        ObsH::P(o) => o.try_subscribe(make_handler::<(i64, i64)>(sh, tables, sub, script, guard)).map_err(ObsErr::from),
     }
 }
 
